@@ -17,7 +17,7 @@ INFO = {
     'bounds': {
         'quick': 'five models; second call on shapes (1,1) and (2,1) [rate] / (1,1),(1,2,1) [predict_*]; first call concrete with tau in {None, 0, 0.37}, '
                  'limit_sigma in {None, True, False}; model-level limit_sigma in {False, True}; call sequences of length 2',
-        'thorough': '+ rate on (1,1,1) with ties, predict on 4 teams',
+        'thorough': '+ rate on (1,1,1) with ties (model-level limit_sigma off), predict_win / predict_draw on 4 teams',
     },
     'outside': ['thread interleavings and PYTHONHASHSEED themselves (not encoded; see (iv))', 'sequences longer than 2 (follow from the empty write set by induction)'],
     'stubs': None,
@@ -45,7 +45,7 @@ def jobs(tier):
                 if (tm or ls0) and op == 'rate':
                     shapes = [(1, 1)]  # model-level limit_sigma: 2 clamp forks per player and run
                 if tier == 'thorough':
-                    shapes = shapes + ([(2, 1)] if (op == 'rate' and ls0 and not tm) else []) + ([(1, 1, 1)] if (op == 'rate' and not tm) else []) + ([(1, 1, 2, 1)] if op != 'rate' else [])
+                    shapes = shapes + ([(1, 1, 1)] if (op == 'rate' and not tm and not ls0) else []) + ([(1, 1, 2, 1)] if op in ('predict_win', 'predict_draw') else [])
                 for shape in shapes:
                     out.append({'name': f'{key}-hist-{op}-{H.shape_str(shape)}-ls{int(ls0)}', 'mode': 'hist', 'model': key,
                                 'op': op, 'shape': list(shape), 'ls0': ls0, 'budget': 600, 'cost': 100 if tm else 30})
